@@ -91,6 +91,12 @@ type Scenario struct {
 	C09    *C09Payload       `json:"c09,omitempty"`
 	C04    *C04Payload       `json:"c04,omitempty"`
 	C05    *C05Payload       `json:"c05,omitempty"`
+
+	// argvShare (not part of a replay file; set by a twin evaluation): the argument
+	// slices handed to ParseArgs are built once per operation and handed out again
+	// by later executions of the same scenario value, as a program that evaluates
+	// one argument vector twice would.
+	argvShare map[*Op][]string
 }
 
 // ---- outcome ---------------------------------------------------------------
@@ -134,6 +140,7 @@ type OpResult struct {
 	ZeroReads    int      `json:"zero_reads,omitempty"`
 	ReadCalls    int      `json:"read_calls,omitempty"`
 	FaultsFired  int      `json:"faults_fired,omitempty"`
+	Comp         []BStr   `json:"comp,omitempty"` // completion items handed to the CompletionHandler during this operation
 }
 
 type Outcome struct {
@@ -490,6 +497,18 @@ func Execute(sc *Scenario, sched *simrt.Schedule) (out *Outcome) {
 	return out
 }
 
+// decoySpec: a second, unrelated parser of the same program.
+func decoySpec() *DeclSpec {
+	return &DeclSpec{App: "decoy", Options: optHelpFlag | optPassDoubleDash,
+		Root: &GroupSpec{Name: "Decoy Options", Opts: []*OptSpec{
+			{Field: "FDecoyName", Kind: "string", Long: "decoy-name", Short: "N", Default: []BStr{"dd"}, Desc: "name of the decoy"},
+			{Field: "FDecoyLevel", Kind: "int", Long: "decoy-level", Choices: []string{"1", "2", "3"}, Desc: "level of the decoy"},
+			{Field: "FDecoyMap", Kind: "map[string]int", Long: "decoy-map", Default: []BStr{"a:1", "b:2"}, Desc: "decoy pairs"},
+		}},
+		Commands: []*CmdSpec{{Name: "decoycmd", Short: "a decoy command", Own: &GroupSpec{Name: "decoycmd", Opts: []*OptSpec{{Field: "FDecoyFlag", Kind: "bool", Long: "decoy-flag"}}}}},
+	}
+}
+
 func activeChain(p *flags.Parser) string {
 	var names []string
 	for c := p.Command.Active; c != nil; c = c.Active {
@@ -616,7 +635,21 @@ func runOp(w *simrt.World, b *Built, op *Op, res *OpResult) {
 		w.Fd1.Fired, w.Fd2.Fired = 0, 0
 		w.Fd1.ResetCalls()
 		w.Fd2.ResetCalls()
-		rest, err := b.P.ParseArgs(strs(op.Argv))
+		argv := strs(op.Argv)
+		if sh := cur.sc.argvShare; sh != nil {
+			if a, ok := sh[op]; ok {
+				argv = a
+			} else {
+				sh[op] = argv
+			}
+		}
+		nComp := len(cur.out.Completions)
+		defer func() {
+			if n := len(cur.out.Completions); n > nComp {
+				res.Comp = append([]BStr{}, cur.out.Completions[nComp:]...)
+			}
+		}()
+		rest, err := b.P.ParseArgs(argv)
 		classifyErr(err, res)
 		res.Rest = bstrs(rest)
 		if len(rest) > 0 {
@@ -624,6 +657,33 @@ func runOp(w *simrt.World, b *Built, op *Op, res *OpResult) {
 		}
 		res.FaultsFired = w.Fd1.Fired + w.Fd2.Fired
 		w.Fd1.Faults, w.Fd2.Faults = nil, nil
+	case "decoy":
+		// another parser of the same program is declared and used (its own help
+		// requested, its own texts rendered): nothing of that may show in what the
+		// scenario's parser produces
+		saved, had := w.Env["GO_FLAGS_COMPLETION"]
+		delete(w.Env, "GO_FLAGS_COMPLETION")
+		db := Build(decoySpec())
+		if db.P != nil && db.Err == nil {
+			db.P.ParseArgs([]string{"--decoy-level", "3", "--help"})
+			db.P.WriteHelp(&simrt.Sink{Name: "decoyhelp"})
+			db.P.ParseArgs([]string{"--decoy-name=x", "decoycmd", "rest"})
+		}
+		if len(keepAlive) <= 300 {
+			keepAlive = append(keepAlive, db)
+		}
+		if had {
+			w.Env["GO_FLAGS_COMPLETION"] = saved
+		}
+	case "addgroup":
+		// the program completes its declaration only now
+		for _, add := range b.lateAdds {
+			if err := add(); err != nil {
+				classifyErr(err, res)
+			}
+		}
+		b.lateAdds = nil
+		b.registerPointers()
 	case "newini":
 		b.KeptIni = flags.NewIniParser(b.P)
 	case "setopts":
